@@ -436,7 +436,7 @@ func (st *Runtime) executeList(list *ListNode) (returnValue reflect.Value) {
 					if v.Type().Implements(rendererType) {
 						v.Interface().(Renderer).Render(st)
 					} else {
-						_, err := fastprinter.PrintValue(st.escapeeWriter, v)
+						_, err := printValue(st.escapeeWriter, v)
 						if err != nil {
 							node.error(err)
 						}
@@ -1293,13 +1293,22 @@ func (w *escapeWriter) Write(b []byte) (int, error) {
 	return 0, nil
 }
 
+// printValue prints v. A nil value of an interface type (a nil error or fmt.Stringer in a
+// struct field, say) has no method to call and prints like any nil.
+func printValue(w io.Writer, v reflect.Value) (int, error) {
+	if v.Kind() == reflect.Interface && v.IsNil() {
+		return fmt.Fprint(w, nil)
+	}
+	return fastprinter.PrintValue(w, v)
+}
+
 func (st *Runtime) evalSafeWriter(term reflect.Value, node *CommandNode, v ...reflect.Value) {
 	sw := &escapeWriter{rawWriter: st.Writer, safeWriter: term.Interface().(SafeWriter)}
 	for i := 0; i < len(v); i++ {
-		fastprinter.PrintValue(sw, v[i])
+		printValue(sw, v[i])
 	}
 	for i := 0; i < len(node.Exprs); i++ {
-		fastprinter.PrintValue(sw, st.evalPrimaryExpressionGroup(node.Exprs[i]))
+		printValue(sw, st.evalPrimaryExpressionGroup(node.Exprs[i]))
 	}
 }
 
